@@ -224,7 +224,7 @@ def _invalidate_on_write(col, rule="C07.R1"):
     okf = okf and len(sets) >= 2 and all(is_none in sx.conds(ev.nid) for ev, m in sets)
     if okf:
         vals = {m["k"][1].strip("'\""): m["v"] for ev, m in sets}
-        okf = vals.get("_index_cache") == ("item", fill, 0) and vals.get("_count_cache") == ("item", fill, 1)
+        okf = _is_item(vals.get("_index_cache"), fill, 0) and _is_item(vals.get("_count_cache"), fill, 1)
     rets = sx.of_kind("return")
 
     def _ret_ok(r):
@@ -234,7 +234,7 @@ def _invalidate_on_write(col, rule="C07.R1"):
         filled = is_none in sx.conds(r.nid)
         for comp, attr, i in ((v[1][0], "_index_cache", 0), (v[1][1], "_count_cache", 1)):
             # the attribute itself, or -- on the path that has just filled it -- the value stored into it
-            if not (comp == S.sattr(attr) or (filled and fill is not None and comp == ("item", fill, i))):
+            if not (comp == S.sattr(attr) or (filled and fill is not None and _is_item(comp, fill, i))):
                 return False
         return True
     okf = okf and bool(rets) and all(_ret_ok(r) for r in rets)
@@ -354,6 +354,10 @@ def _parser(col, rule="C07.R3"):
                 sign, x = "-", a[2]
             elif S.is_call_of(a, ("glob", "int")):
                 sign, x = "+", a
+            elif a[:1] == ("op",) and a[1] == "*" and any(f_ in (("const", "1"), ("const", "-1"), ("uop", "-", ("const", "1"))) for f_ in (a[2], a[3])):
+                # the sign as a constant factor: -1 * int(..), int(..) * 1
+                fac, oth = (a[2], a[3]) if a[2][:1] in (("const",), ("uop",)) and not S.is_call_of(a[2]) else (a[3], a[2])
+                sign, x = ("+" if fac == ("const", "1") else "-"), oth
             if x is not None and S.is_call_of(x, ("glob", "int")) and x[2] and x[2][0][:1] == ("item",) and S.is_call_of(x[2][0][1], meth="split"):
                 sep = x[2][0][1][2][0] if x[2][0][1][2] else None
                 which = "previous" if sep == S.sattr("_sep_previous") else "next" if sep == S.sattr("_sep_next") else None
@@ -688,6 +692,11 @@ def _cache_written_only_by_its_builder(col, rule="C07.R5"):
            "only _make_cache decides what the row-name cache holds", f"{n_fn} functions of xdeps/table.py scanned, {n_use} take the cache")
 
 
+def _is_item(t, whole, i) -> bool:
+    """component i of the tuple `whole`: by unpacking (`a, b = whole`) or by position (`whole[i]`)"""
+    return t == ("item", whole, i) or t == ("sub", whole, ("const", str(i)))
+
+
 def _memo_inputs_invalidate(col, rule="C07.R1"):
     """whatever a Table method keeps on the table between calls (the row-name cache, or any other memo attribute) is computed only from
     table settings whose assignment invalidates the caches: a memo that read another setting answers for the old one after it changed"""
@@ -699,18 +708,17 @@ def _memo_inputs_invalidate(col, rule="C07.R1"):
     if init is None or inv is None or seti is None:
         raise AnalysisError("Table.__init__/_invalidate_cache/__setitem__ missing -- cannot decide")
     params = {a.arg for a in init.args.args + init.args.kwonlyargs}
-    dicts = [n for n in ast.walk(init) if isinstance(n, ast.Dict) and any(isinstance(k, ast.Constant) and k.value == "_index" for k in n.keys)]
-    if len(dicts) != 1:
+    from .common import init_attribute_table
+    table = init_attribute_table(repo, "Table")
+    if "_index" not in table:
         raise AnalysisError("Table.__init__: the table of initial attributes is not recognised -- cannot decide")
     settings, memos = set(), set()
-    for k, v in zip(dicts[0].keys, dicts[0].values):
-        if not (isinstance(k, ast.Constant) and isinstance(k.value, str)):
-            raise AnalysisError("Table.__init__: computed attribute name -- cannot decide")
+    for k, v in table.items():
         if isinstance(v, ast.Name) and v.id in params:
-            settings.add(k.value)
+            settings.add(k)
         elif (isinstance(v, ast.Constant) and v.value is None) or (isinstance(v, (ast.Dict, ast.List, ast.Set)) and not (getattr(v, "keys", None) or getattr(v, "elts", None))) \
                 or (isinstance(v, ast.Call) and isinstance(v.func, ast.Name) and v.func.id in ("dict", "list", "set", "defaultdict", "OrderedDict")):
-            memos.add(k.value)
+            memos.add(k)
     for n in ast.walk(inv):
         if isinstance(n, ast.Call) and A.dotted(n.func) == "object.__setattr__" and len(n.args) == 3 and isinstance(n.args[1], ast.Constant):
             memos.add(n.args[1].value)
